@@ -67,6 +67,8 @@ def run_shards(binary, scenarios, workdir, nproc=None, timeout=900, args=(), mem
     the concatenated trace lines (parsed) per scenario id, in scenario order."""
     nproc = min(nproc or NPROC, max(1, len(scenarios)))
     shards = [scenarios[i::nproc] for i in range(nproc)]
+    if tier() == "thorough":
+        timeout *= 4          # (hundreds of scenarios per shard, possibly on a busy machine)
 
     def one(i):
         sdir = os.path.join(workdir, "shard%d" % i)
@@ -75,9 +77,13 @@ def run_shards(binary, scenarios, workdir, nproc=None, timeout=900, args=(), mem
         while todo:
             os.makedirs(sdir, exist_ok=True)
             inp = "\n".join(json.dumps(s) for s in todo) + "\n"
-            p = subprocess.run([binary, "-scratch", sdir] + list(args), input=inp, stdout=subprocess.PIPE,
-                               stderr=subprocess.PIPE, text=True, timeout=timeout,
-                               preexec_fn=_limit_memory(mem_gb) if mem_gb else None)
+            try:
+                p = subprocess.run([binary, "-scratch", sdir] + list(args), input=inp, stdout=subprocess.PIPE,
+                                   stderr=subprocess.PIPE, text=True, timeout=timeout,
+                                   preexec_fn=_limit_memory(mem_gb) if mem_gb else None)
+            except subprocess.TimeoutExpired:
+                shutil.rmtree(sdir, ignore_errors=True)
+                raise InfraError("%s did not finish %d scenarios within %d s" % (binary, len(todo), timeout))
             shutil.rmtree(sdir, ignore_errors=True)
             if p.returncode == 0:
                 out += p.stdout
